@@ -5,6 +5,8 @@ import vlib
 import thermogen
 from vlib import g_str, g_list, g_Q, g_bool
 
+COQ_DEPS = ['Thermo/Corr.vo']
+
 PROPS = ('cp', 'h', 's', 'g')
 TOL = 1e-11
 
